@@ -66,6 +66,8 @@ type Case struct {
 	// cli: some of the names are already defined in the environment taskctl is started with; an override is still
 	// an override of that stage only, everybody else sees the inherited value
 	ParentEnv map[string]string `json:"parent_env,omitempty"`
+	// Ctx (cli, real): the shared task runs in a named execution context with before and after commands
+	Ctx bool `json:"ctx,omitempty"`
 	Mode     string            `json:"mode,omitempty"` // "real": shared task object + real runner
 }
 
@@ -348,7 +350,13 @@ func runCLI(c Case, dir string) error {
 		}
 		pipes = pipes.Set(fmt.Sprintf("p%d", pi+1), l)
 	}
+	if c.Ctx {
+		tk = tk.Set("context", "cx")
+	}
 	cfg := gen.Map{{K: "tasks", V: gen.Map{{K: "shared", V: tk}}}, {K: "pipelines", V: pipes}}
+	if c.Ctx {
+		cfg = cfg.Set("contexts", gen.Map{{K: "cx", V: gen.Map{{K: "before", V: gen.List{"true"}}, {K: "after", V: gen.List{"true"}}}}})
+	}
 	os.WriteFile(filepath.Join(dir, "t.yaml"), []byte(gen.YAML(cfg)), 0o644)
 	env := cli.Env{Bin: drv.Bin(), Dir: dir, Home: filepath.Join(dir, "home")}
 	for _, k := range gen.SortedKeys(c.ParentEnv) {
@@ -427,7 +435,12 @@ func runReal(c Case, dir string) error {
 		"tmpl": `T({{ if index . "va" }}{{ index . "va" }}{{ else }}unset{{ end }})`})
 	base.Env = variables.FromMap(c.TaskEnv)
 	base.Variables = variables.FromMap(taskVars)
-	r, err := runner.NewTaskRunner()
+	var ropts []runner.Opts
+	if c.Ctx {
+		base.Context = "cx"
+		ropts = append(ropts, runner.WithContexts(map[string]*runner.ExecutionContext{"cx": runner.NewExecutionContext(nil, "", variables.NewVariables(), nil, nil, []string{"true"}, []string{"true"})}))
+	}
+	r, err := runner.NewTaskRunner(ropts...)
 	if err != nil {
 		return err
 	}
@@ -575,6 +588,7 @@ func genCase(rt *rapid.T, cliMode bool) Case {
 	if cliMode && rapid.Bool().Draw(rt, "inherited") {
 		c.ParentEnv = genMap(rt, "penv", "parent", envKeys[:4])
 	}
+	c.Ctx = cliMode && rapid.IntRange(0, 2).Draw(rt, "named-context") == 0
 	c.P1 = genStages(rt, "s", 2, 6, cliMode)
 	if rapid.Bool().Draw(rt, "second") {
 		c.P2 = genStages(rt, "q", 1, 3, cliMode)
